@@ -452,6 +452,50 @@ Section AdmissionProofs.
     destruct (find (fun e => e_id e =? id) u) as [e|] eqn:Ef; [|reflexivity].
     apply find_some in Ef. destruct Ef as (Hin & He). apply N.eqb_eq in He. now apply Hu in Hin.
   Qed.
+
+  (* ---------------------------------------------------------------------------------------- *)
+  (* the PONG arm with the records of the running queries in view ([pong_q]): whatever record find_enr
+     comes up with - the stored one, or one that merely appeared in a NODES answer and sits in a query -
+     a PONG writes no record into the table: every (key, record) pair of the table afterwards - entries
+     and the candidates in the pending slots - was there before; no key is added *)
+
+  Notation pong_q := (pong_q rec_of mode c).
+
+  Lemma pong_q_mem t u id s now x : In x (tmem (fst (pong_q t u id s now))) -> In x (tmem t).
+  Proof.
+    unfold Admission.pong_q.
+    destruct (find_enr t u id now) as [t1 r] eqn:E1.
+    assert (Ht1 : forall y, In y (tmem t1) -> In y (tmem t)).
+    { intros y Hy. replace t1 with (fst (find_enr t u id now)) in Hy by now rewrite E1.
+      now apply find_enr_mem in Hy. }
+    destruct r as [e|]; [|cbn [fst]; auto].
+    destruct (contactable mode e); cbn [fst]; [|auto].
+    intros H. apply t_update_node_status_mem in H. auto.
+  Qed.
+
+  Lemma pong_q_local t u id s now : local (fst (pong_q t u id s now)) = local t.
+  Proof.
+    unfold Admission.pong_q.
+    pose proof (find_enr_local t u id now) as H1.
+    destruct (find_enr t u id now) as [t1 r]. cbn [fst] in H1.
+    destruct r as [e|]; [|exact H1].
+    destruct (contactable mode e); cbn [fst]; [|exact H1].
+    now rewrite t_update_node_status_local.
+  Qed.
+
+  Lemma pong_q_adm t u id s now : Adm t -> Adm (fst (pong_q t u id s now)).
+  Proof.
+    intros H x Hx. rewrite pong_q_local. apply H. now apply pong_q_mem in Hx.
+  Qed.
+
+  (* in particular: the record stored for a key (entry or pending candidate) after a PONG is the record
+     that was stored for it before, whatever the queries hold *)
+  Lemma pong_q_no_new_key t u id s now k :
+    In k (tkeys (fst (pong_q t u id s now))) -> In k (tkeys t).
+  Proof.
+    intros Hk. apply In_tkeys in Hk. destruct Hk as (v & Hv). apply pong_q_mem in Hv.
+    apply In_tkeys. eauto.
+  Qed.
 End AdmissionProofs.
 
 Lemma single_stack_address_bound_v4 tf fx c t e id a inc now k :
